@@ -32,7 +32,7 @@ class C12(BaseCheck):
              'scales.thriftmux.sink:SocketTransportSink._OnTimeout',
              'scales.pool.watermark:WatermarkPoolSink._ProcessQueue')
   REQUIRED_ANCHORS = ANCHORS
-  REQUIRED_CLASSES = tuple('%s/%s' % h for h in HOPS) + ('boundary', 'discard-expected', 'expired-not-sent', 'large-tags', 'expired-in-open-wait', 'send-queue:over-a-thousand-queued', 'send-queue:cpu-bound-drain')
+  REQUIRED_CLASSES = tuple('%s/%s' % h for h in HOPS) + ('boundary', 'discard-expected', 'expired-not-sent', 'large-tags', 'expired-in-open-wait', 'send-queue:over-a-thousand-queued', 'send-queue:cpu-bound-drain', 'send-queue:slow-log-handler')
   ASSUMPTIONS = ('bytes are attributed to calls through the frames the server decodes (cid in the argument) '
                  'plus a scan of undecoded trailing bytes for the call id',)
   QUICK_CASES = 1440
@@ -253,6 +253,28 @@ class C12(BaseCheck):
       env.advance(1.0)
       srv.sim.send_delay = None
       env.advance(8.0)
+    elif hop == 'send-queue' and (idx // len(HOPS)) % 4 == 1:
+      # debug logging through a handler whose I/O takes a while (a socket handler under gevent): whichever
+      # greenlet logs is suspended for that long wherever the library logs, and deadlines pass meanwhile
+      classes.add('send-queue:slow-log-handler')
+      call(5.0, {'delay': 0.001})
+      env.advance(0.05)
+      import gevent
+      from scales.loadbalancer.heap import HeapBalancerSink
+      lb_ = w.dispatcher.next_sink
+      hops_ = 0
+      while lb_ is not None and not isinstance(lb_, HeapBalancerSink) and hops_ < 8:
+        lb_, hops_ = getattr(lb_, 'next_sink', None), hops_ + 1
+      env.yielding_logs()
+      if lb_ is not None:
+        env.log_yield_ok = lambda: getattr(lb_._heap_lock, '_owner', None) is not gevent.getcurrent()
+      env.log_yield_delay = D_ = rng.choice([0.004, 0.02, 0.1])
+      for _ in range(rng.randint(2, 8)):
+        call(D_ * rng.choice([0.3, 0.6, 1.0, 1.5, 2.5]) * (0.5 + rng.random()), {'delay': 0.001} if rng.random() < 0.5 else {'drop': True})
+        if rng.random() < 0.5:
+          env.advance(rng.random() * D_)
+      env.advance(D_ * 30 + 0.5)
+      env.yielding_logs(False)
     elif hop == 'send-queue' and (idx // len(HOPS)) % 4 == 2:
       # a backlog drained by writes that never block but cost CPU time: the deadlines of the calls
       # still queued pass while the send loop is busy writing the ones ahead of them
